@@ -22,7 +22,12 @@ use turdb::Database;
 use turdb::btree::{InteriorNode, InteriorNodeMut, LeafNode, LeafNodeMut};
 use turdb::hnsw::storage::{HnswFileHeader, HnswPage, HnswPageRef};
 use turdb::hnsw::{DistanceFunction, NodeId, QuantizationType};
-use turdb::records::{ArrayBuilder, ArrayView, DataType};
+use turdb::parsing::parse_json;
+use turdb::records::jsonb::{JsonbValue, JsonbView};
+use turdb::records::types::ColumnDef as RCol;
+use turdb::records::{ArrayBuilder, ArrayView, DataType, RecordBuilder, RecordView, Schema};
+use turdb::schema::ColumnDef as SCol;
+use turdb::types::OwnedValue;
 use turdb::storage::{validate_page, IndexFileHeader, MetaFileHeader, PageHeader, TableFileHeader};
 
 const PAGE: usize = 16384;
@@ -148,6 +153,12 @@ fn run_real(w: u32, d: &[u8], args: &[u64], key: &[u8]) -> Obs {
         45 => obs(move || ArrayView::new(&d).and_then(|a| a.get_blob(i).map(digest)), |v| v),
         46 => obs(move || ArrayView::new(&d).and_then(|a| a.get_text(i).map(|s| digest(s.as_bytes()))), |v| v),
         47 => obs(move || ArrayView::new(&d).map(|a| vec![a.len() as i128]), |v| v),
+        50 => {
+            let types: Vec<DataType> = args.iter().map(|c| DataType::try_from(*c as u8).unwrap_or(DataType::Int8)).collect();
+            let schema = Schema::new(types.iter().enumerate().map(|(i, t)| RCol::new(format!("c{}", i), *t)).collect());
+            let cols: Vec<SCol> = types.iter().enumerate().map(|(i, t)| SCol::new(format!("c{}", i), *t)).collect();
+            obs(std::panic::AssertUnwindSafe(move || { let view = RecordView::new(&d, &schema)?; OwnedValue::extract_row_from_record(&view, &cols).map(|_| ()) }), unit)
+        }
         _ => Obs::Err,
     }
 }
@@ -162,6 +173,7 @@ fn constructor_ok(w: u32, d: &[u8]) -> bool {
         31..=34 => matches!(run_real(30, d, &[], &[]), Obs::Ok(_)),
         40 => true,
         41..=47 => d.len() >= 8,
+        50 => d.len() >= 2,
         _ => false,
     }
 }
@@ -181,6 +193,7 @@ fn dec_class(w: u32, d: &[u8], args: &[u64]) -> u32 {
         33 => 5,
         41 => 6,
         42..=46 => 7,
+        50 => 14,
         _ => 0,
     }
 }
@@ -463,6 +476,43 @@ fn array_cases(rng: &mut Rng, n: usize, out: &mut Vec<DecCase>) {
         out.push(DecCase { w: wh, d, args, key: vec![], kind });
     }
 }
+// ====================================================================== generators: row records
+const REC_TYPES: [u8; 8] = [0, 1, 2, 3, 5, 20, 21, 24];
+fn rec_value(rng: &mut Rng, code: u8) -> OwnedValue {
+    if rng.chance(1, 6) { return OwnedValue::Null; }
+    match code {
+        0 => OwnedValue::Bool(rng.chance(1, 2)),
+        1 => OwnedValue::Int(rng.next() as i16 as i64),
+        2 => OwnedValue::Int(rng.next() as i32 as i64),
+        3 => OwnedValue::Int(rng.next() as i64),
+        5 => OwnedValue::Float(rng.below(1000) as f64 / 8.0),
+        21 => { let l = rng.below(7) as usize; OwnedValue::Blob(rng.bytes(l)) }
+        _ => OwnedValue::Text((0..rng.below(7)).map(|_| *rng.pick(&['a', 'z', 'é', '0'])).collect()),
+    }
+}
+fn record_cases(rng: &mut Rng, n: usize, out: &mut Vec<DecCase>) {
+    for _ in 0..n {
+        let ncols = 1 + rng.below(5) as usize;
+        let types: Vec<u8> = (0..ncols).map(|_| *rng.pick(&REC_TYPES)).collect();
+        let schema = Schema::new(types.iter().enumerate().map(|(i, t)| RCol::new(format!("c{}", i), DataType::try_from(*t).unwrap_or(DataType::Int8))).collect());
+        let row: Vec<OwnedValue> = types.iter().map(|t| rec_value(rng, *t)).collect();
+        let mut buf: Vec<u8> = vec![];
+        let built = catch(std::panic::AssertUnwindSafe(|| { let mut b = RecordBuilder::new(&schema); OwnedValue::build_record_into_buffer(&row, &mut b, &mut buf).is_ok() }));
+        let mut d = if matches!(built, Caught::Done(true)) { buf } else { vec![2, 0] };
+        let kind = match rng.below(9) {
+            0 | 1 => "record_valid",
+            2 => { let k = rng.below(d.len() as u64 + 1) as usize; d.truncate(k); "record_truncated" }
+            3 => { let v = *rng.pick(&[0u64, 1, 2, 3, 9, 255, 256, 65535]); put(&mut d, 0, &le(v, 2)); "record_header_len_edit" }
+            4 => { let hl = u16at(&d, 0).min(d.len()); if hl > 2 { let k = 2 + rng.below((hl - 2) as u64) as usize; d[k] = *rng.pick(&[0u8, 255, 200, 1]); } "record_header_edit" }
+            5 => { let n = d.len(); if n > 0 { let k = rng.below(n as u64) as usize; d[k] ^= 1 << rng.below(8); } "record_bitflip" }
+            6 => { let l = rng.below(24) as usize; d = rng.bytes(l); "record_random" }
+            7 => { let e = 1 + rng.below(6) as usize; let t = rng.bytes(e); d.extend_from_slice(&t); "record_extended" }
+            _ => { let k = *rng.pick(&[0usize, 1, 2, 3, 4]); d.truncate(k.min(d.len())); "record_short" }
+        };
+        out.push(DecCase { w: 50, d, args: types.iter().map(|t| *t as u64).collect(), key: vec![], kind });
+    }
+}
+
 /// fixed boundary cases (every run): the witnesses of the refutation theorems of Props/C23.v and their neighbours
 fn boundary_cases(out: &mut Vec<DecCase>) {
     let mut page = |t: u8, cc: u16| { let mut p = vec![0u8; PAGE]; p[0] = t; put(&mut p, 2, &le(cc as u64, 2)); p };
@@ -497,6 +547,10 @@ fn boundary_cases(out: &mut Vec<DecCase>) {
     out.push(DecCase { w: 42, d: vec![8, 0, 0, 0, 2, 1, 1, 0], args: vec![0], key: vec![], kind: "boundary" });
     out.push(DecCase { w: 45, d: vec![9, 0, 0, 0, 21, 1, 1, 0, 0], args: vec![0], key: vec![], kind: "boundary" });
     out.push(DecCase { w: 45, d: vec![0, 0, 0, 0, 21, 1, 1, 0, 0, 0, 0, 0, 0], args: vec![0], key: vec![], kind: "boundary" });
+    // records: a TEXT column and a 2-byte record (no room for the null bitmap); an end offset beyond the data
+    out.push(DecCase { w: 50, d: vec![2, 0], args: vec![20], key: vec![], kind: "boundary" });
+    out.push(DecCase { w: 50, d: vec![5, 0, 0, 9, 0, 1, 2, 3, 4], args: vec![2, 20], key: vec![], kind: "boundary" });
+    out.push(DecCase { w: 50, d: vec![5, 0, 0, 0, 0, 1, 2, 3, 4], args: vec![2, 20], key: vec![], kind: "boundary" });
 }
 
 fn dec_cases(rng: &mut Rng, thorough: bool) -> Vec<DecCase> {
@@ -506,6 +560,7 @@ fn dec_cases(rng: &mut Rng, thorough: bool) -> Vec<DecCase> {
     header_cases(rng, 160 * m, &mut out);
     page_cases(rng, 700 * m, &mut out);
     array_cases(rng, 900 * m, &mut out);
+    record_cases(rng, 500 * m, &mut out);
     out
 }
 
@@ -601,6 +656,56 @@ fn push_fk(w: &mut CaseWriter, c: &FkCase) -> XOut {
     let cc = u16at(&c.d, 2);
     let term = format!("Xp 1 [{}] {}", cc, xout_term(&o));
     w.push(term, fk_replay(c, &ds), c.d.len() == PAGE && c.d[0] == 2, c.kind);
+    o
+}
+
+// ====================================================================== exploration 3: JsonbView on corrupted documents
+fn walk_value(v: JsonbValue<'_>, budget: &mut u32) -> eyre::Result<()> {
+    if *budget == 0 { return Ok(()); }
+    *budget -= 1;
+    match v {
+        JsonbValue::Array(view) => { for item in view.iter_array()? { walk_value(item?, budget)?; } }
+        JsonbValue::Object(view) => { for item in view.iter_object()? { let (_k, e) = item?; walk_value(e, budget)?; } let _ = view.get("a")?; }
+        _ => {}
+    }
+    Ok(())
+}
+struct JbCase { d: Vec<u8>, kind: &'static str }
+fn run_jb(c: &JbCase) -> XOut {
+    let d = c.d.clone();
+    let _ = take_site();
+    match catch(move || -> eyre::Result<()> { let view = JsonbView::new(&d)?; let mut budget = 100_000u32; walk_value(view.as_value()?, &mut budget) }) {
+        Caught::Done(Ok(())) => XOut::Ok(1, 0),
+        Caught::Done(Err(_)) => XOut::Ok(0, 1),
+        Caught::Panicked(_) => XOut::Panic(take_site()),
+    }
+}
+const JSON_DOCS: [&str; 10] = ["null", "true", "12.5", "\"hi\"", "[]", "{}", "[1, \"a\", null, [2, 3]]", "{\"a\": 1, \"b\": \"x\"}",
+    "{\"a\": [1, 2, {\"b\": null}], \"c\": \"x\"}", "[[[[1]]], {\"k\": {\"k\": {\"k\": false}}}]"];
+fn jb_cases(rng: &mut Rng, n: usize, out: &mut Vec<JbCase>) {
+    for _ in 0..n {
+        let text = *rng.pick(&JSON_DOCS);
+        let mut d = match parse_json(text) { Ok(r) => r.value.to_jsonb_bytes(), Err(_) => vec![] };
+        let kind = match rng.below(7) {
+            0 => "jb_valid",
+            1 => { let k = rng.below(d.len() as u64 + 1) as usize; d.truncate(k); "jb_truncated" }
+            2 => { let v = rng.next() as u32; if d.len() >= 4 { put(&mut d, 0, &le((v & 0x0FFF_FFFF) as u64 | ((d[3] as u64 & 0xF0) << 24), 4)); } "jb_count_edit" }
+            3 => { let n = d.len(); if n > 4 { let k = 4 + rng.below(((n - 4) / 4).max(1) as u64) as usize * 4; let t = rng.bytes(4); put(&mut d, k, &t); } "jb_entry_edit" }
+            4 => { let n = d.len(); if n > 0 { let k = rng.below(n as u64) as usize; d[k] ^= 1 << rng.below(8); } "jb_bitflip" }
+            5 => { let l = rng.below(24) as usize; d = rng.bytes(l); "jb_random" }
+            _ => { let n = d.len(); if n > 0 { let k = rng.below(n as u64) as usize; d[k] = *rng.pick(&[0u8, 255, 127, 128]); } "jb_byte_edit" }
+        };
+        out.push(JbCase { d, kind });
+    }
+}
+fn jb_replay(ds: &Desc) -> String { format!("jb d={}", desc_line(ds)) }
+fn parse_jb(l: &str) -> Option<JbCase> { let r = l.strip_prefix("jb d=")?; Some(JbCase { d: parse_desc(r.split(' ').next().unwrap_or("0:0:")), kind: "replay" }) }
+fn jb_class(o: &XOut) -> u32 { match o { XOut::Panic(m) if file_code(m) == 10 => 13, _ => 0 } }
+fn push_jb(w: &mut CaseWriter, c: &JbCase) -> XOut {
+    let ds = describe(&c.d);
+    let o = run_jb(c);
+    let term = format!("Xp 3 [{}] {}", c.d.len(), xout_term(&o));
+    w.push(term, jb_replay(&ds), c.d.len() >= 4, c.kind);
     o
 }
 
@@ -714,7 +819,9 @@ fn run_script(dir: &Path, wal: bool) -> (u32, u32) {
     if wal { tally(db.execute("PRAGMA wal=ON").is_ok()); }
     for op in SCRIPT {
         let (code, sql) = op.split_at(2);
-        if code.starts_with('Q') { tally(db.query(sql).is_ok()); } else { tally(db.execute(sql).is_ok()); }
+        let r = if code.starts_with('Q') { db.query(sql).map(|_| ()) } else { db.execute(sql).map(|_| ()) };
+        if let Err(e) = &r { if std::env::var("C23_DEBUG").is_ok() { eprintln!("script op failed: {} : {:#}", op, e); } }
+        tally(r.is_ok());
     }
     tally(db.checkpoint().is_ok());
     tally(db.close().is_ok());
@@ -723,7 +830,11 @@ fn run_script(dir: &Path, wal: bool) -> (u32, u32) {
 fn worker_main(a: &Args) {
     install_site_hook();
     let base = a.out.clone();
-    build_templates(&base);
+    // templates: built by the parent once (--tmpl DIR), or here when run by hand
+    let tmpl: PathBuf = match a.rest.iter().position(|x| x == "--tmpl").and_then(|i| a.rest.get(i + 1)) {
+        Some(p) => PathBuf::from(p),
+        None => { build_templates(&base); base.clone() }
+    };
     let stdin = std::io::stdin();
     let stdout = std::io::stdout();
     println!("READY");
@@ -739,7 +850,7 @@ fn worker_main(a: &Args) {
         n += 1;
         let dir = base.join(format!("db{}", n));
         let _ = std::fs::remove_dir_all(&dir);
-        copy_dir(&base.join(format!("tmpl{}", t.min(1))), &dir).expect("copy template");
+        copy_dir(&tmpl.join(format!("tmpl{}", t.min(1))), &dir).expect("copy template");
         if !f.is_empty() && !f.contains("..") { apply_edits(&dir.join(&f), &es); }
         let d2 = dir.clone();
         let r = std::panic::catch_unwind(std::panic::AssertUnwindSafe(|| run_script(&d2, t == 1)));
@@ -755,13 +866,13 @@ fn worker_main(a: &Args) {
 struct Worker { child: Child, rx: mpsc::Receiver<String>, dir: PathBuf }
 fn tmp_base() -> PathBuf { let shm = Path::new("/dev/shm"); if shm.is_dir() { shm.to_path_buf() } else { PathBuf::from("/verif/build/tmp") } }
 impl Worker {
-    fn spawn(tag: &str) -> Worker {
+    fn spawn(tag: &str, tmpl: &Path) -> Worker {
         let dir = tmp_base().join(format!("c23-{}-{}", std::process::id(), tag));
         let _ = std::fs::remove_dir_all(&dir);
         std::fs::create_dir_all(&dir).expect("worker dir");
         let exe = std::env::current_exe().expect("exe");
         // address-space limit: a runaway allocation must end as an abort of the child, not as memory pressure on the machine
-        let mut child = Command::new("sh").arg("-c").arg("ulimit -v 4000000; exec \"$0\" worker --out \"$1\"").arg(exe).arg(&dir)
+        let mut child = Command::new("sh").arg("-c").arg("ulimit -v 4000000; exec \"$0\" worker --out \"$1\" --tmpl \"$2\"").arg(exe).arg(&dir).arg(tmpl)
             .stdin(Stdio::piped()).stdout(Stdio::piped()).stderr(Stdio::null()).spawn().expect("spawn worker");
         let out = child.stdout.take().unwrap();
         let (tx, rx) = mpsc::channel();
@@ -796,7 +907,7 @@ fn parse_db(l: &str) -> Option<DbCase> {
     for tok in r.split(' ') { if let Some((k, v)) = tok.split_once('=') { m.insert(k, v); } }
     Some(DbCase { t: m.get("t")?.parse().ok()?, f: m.get("f")?.to_string(), es: parse_edits(m.get("e").copied().unwrap_or("")), kind: "replay" })
 }
-fn run_db_cases(cases: &[DbCase], nw: usize) -> Vec<XOut> {
+fn run_db_cases(cases: &[DbCase], nw: usize, tmpl: &Path) -> Vec<XOut> {
     let n = cases.len();
     let mut results: Vec<Option<XOut>> = vec![None; n];
     let chunks: Vec<Vec<usize>> = (0..nw).map(|k| (0..n).filter(|i| i % nw == k).collect()).collect();
@@ -806,16 +917,16 @@ fn run_db_cases(cases: &[DbCase], nw: usize) -> Vec<XOut> {
                 let mut res = vec![];
                 if idxs.is_empty() { return res; }
                 let mut gen = 0;
-                let mut w = Worker::spawn(&format!("{}-{}", k, gen));
+                let mut w = Worker::spawn(&format!("{}-{}", k, gen), tmpl);
                 for &i in idxs {
                     let line = db_line(&cases[i]);
                     let mut o = w.run(&line, Duration::from_secs(5));
                     if o == XOut::Timeout {
                         // re-check alone with a generous limit: machine load must not look like a hang
-                        w.kill(); gen += 1; w = Worker::spawn(&format!("{}-{}", k, gen));
+                        w.kill(); gen += 1; w = Worker::spawn(&format!("{}-{}", k, gen), tmpl);
                         o = w.run(&line, Duration::from_secs(20));
                     }
-                    if !matches!(o, XOut::Ok(..)) { w.kill(); gen += 1; w = Worker::spawn(&format!("{}-{}", k, gen)); }
+                    if !matches!(o, XOut::Ok(..)) { w.kill(); gen += 1; w = Worker::spawn(&format!("{}-{}", k, gen), tmpl); }
                     res.push((i, o));
                 }
                 w.kill();
@@ -915,7 +1026,7 @@ fn probe(a: &Args) {
     let mut rng = Rng::new(a.seed);
     let mut cases: Vec<DbCase> = (0..a.budget.min(100_000) as usize).map(|_| gen_db_case(&mut rng, &files)).collect();
     resolve_bitflips(&mut cases, &base);
-    let outs = run_db_cases(&cases, 6);
+    let outs = run_db_cases(&cases, 6, &base);
     let mut tally: BTreeMap<String, u32> = BTreeMap::new();
     for (c, o) in cases.iter().zip(outs.iter()) {
         let key = match o { XOut::Ok(a, b) => format!("ok {} {}", a, b), XOut::Panic(m) => format!("PANIC {}", m), XOut::Timeout => "TIMEOUT".into(), XOut::Abort => "ABORT".into() };
@@ -939,38 +1050,93 @@ fn main() {
     }
 }
 
+fn site_key(o: &XOut) -> String {
+    match o {
+        XOut::Ok(..) => "returned".into(),
+        XOut::Panic(m) => { let loc = m.split(" | ").next().unwrap_or("?"); let mut it = loc.rsplitn(2, ':'); let _col = it.next(); format!("panic {}", it.next().unwrap_or(loc).trim_start_matches("/repo/")) }
+        XOut::Timeout => "timeout".into(),
+        XOut::Abort => "abort".into(),
+    }
+}
+struct Plan { decs: Vec<DecCase>, fks: Vec<FkCase>, jbs: Vec<JbCase>, dbs: Vec<DbCase>, n_db: usize }
+
 fn gen(a: &Args) {
+    install_site_hook();
     let mut rng = Rng::new(a.seed);
     let mut w = CaseWriter::new(&a.out, "C23", "Corr.C23", 400);
-    let cases: Vec<DecCase> = match a.replay_lines() {
-        Some(ls) => ls.iter().filter_map(|l| parse_dec(l)).collect(),
-        None => dec_cases(&mut rng, a.thorough()),
-    };
+    let mut plan = Plan { decs: vec![], fks: vec![], jbs: vec![], dbs: vec![], n_db: 0 };
+    match a.replay_lines() {
+        Some(ls) => {
+            for l in &ls {
+                let l = l.split(" class=").next().unwrap_or(l);
+                if let Some(c) = parse_dec(l) { plan.decs.push(c); }
+                else if let Some(c) = parse_fk(l) { plan.fks.push(c); }
+                else if let Some(c) = parse_jb(l) { plan.jbs.push(c); }
+                else if let Some(c) = parse_db(l) { plan.dbs.push(c); }
+            }
+        }
+        None => {
+            plan.decs = dec_cases(&mut rng, a.thorough());
+            fk_cases(&mut rng, if a.thorough() { 3000 } else { 300 }, &mut plan.fks);
+            jb_cases(&mut rng, if a.thorough() { 5000 } else { 400 }, &mut plan.jbs);
+            plan.n_db = if a.thorough() { 4000 } else { 200 };
+        }
+    }
     let mut panics: BTreeMap<u32, u64> = BTreeMap::new();
-    for c in &cases {
+    for c in &plan.decs {
         if let Obs::Panic(_) = push_dec(&mut w, c) { *panics.entry(dec_class(c.w, &c.d, &c.args)).or_insert(0) += 1; }
     }
+    let mut sites: BTreeMap<String, u64> = BTreeMap::new();
+    for c in &plan.fks { let o = push_fk(&mut w, c); *sites.entry(format!("find_key: {}", site_key(&o))).or_insert(0) += 1; }
+    for c in &plan.jbs { let o = push_jb(&mut w, c); *sites.entry(format!("jsonb: {}", site_key(&o))).or_insert(0) += 1; }
+    if plan.n_db > 0 || !plan.dbs.is_empty() {
+        let (base, files) = template_files();
+        for _ in 0..plan.n_db { plan.dbs.push(gen_db_case(&mut rng, &files)); }
+        resolve_bitflips(&mut plan.dbs, &base);
+        let nw = if plan.dbs.len() < 8 { 1 } else { 6 };
+        let outs = run_db_cases(&plan.dbs, nw, &base);
+        for (c, o) in plan.dbs.iter().zip(outs.iter()) { push_db(&mut w, c, o); *sites.entry(format!("database: {}", site_key(o))).or_insert(0) += 1; }
+        let _ = std::fs::remove_dir_all(&base);
+    }
     let pj: Vec<String> = panics.iter().map(|(k, v)| format!("\"{}\": {}", k, v)).collect();
-    w.finish(&[("decoder_panics_by_class".to_string(), format!("{{{}}}", pj.join(", ")))]);
+    let sj: Vec<String> = sites.iter().map(|(k, v)| format!("{}: {}", jstr(k), v)).collect();
+    w.finish(&[("decoder_panics_by_class".to_string(), format!("{{{}}}", pj.join(", "))),
+               ("exploration_outcomes".to_string(), format!("{{{}}}", sj.join(", ")))]);
 }
 
-/// Oracle only (no model): no decoder call may panic.
+/// Oracle only (no model): no decoder call may panic; no exploration case may panic, abort or hang.
 fn search(a: &Args) {
+    install_site_hook();
     let mut rng = Rng::new(a.seed ^ 0xC23);
     let mut fails: Vec<String> = vec![];
     let mut tried: u64 = 0;
-    let mut seen: BTreeMap<(u32, u32), u32> = BTreeMap::new();
-    while tried < a.budget.min(400_000) {
+    let mut seen: BTreeMap<String, u32> = BTreeMap::new();
+    let mut note = |key: String, line: String, fails: &mut Vec<String>| { let e = seen.entry(key).or_insert(0); *e += 1; if *e <= 2 && fails.len() < 80 { fails.push(line); } };
+    let budget = a.budget.min(400_000);
+    while tried < budget {
         for c in dec_cases(&mut rng, false) {
             tried += 1;
             if let Obs::Panic(_) = run_real(c.w, &c.d, &c.args, &c.key) {
                 let cl = dec_class(c.w, &c.d, &c.args);
-                let e = seen.entry((c.w, cl)).or_insert(0);
-                *e += 1;
-                if *e <= 2 && fails.len() < 60 { fails.push(format!("{} class={}", dec_replay(&c, &describe(&c.d)), cl)); }
+                note(format!("dec {} {}", c.w, cl), format!("{} class={}", dec_replay(&c, &describe(&c.d)), cl), &mut fails);
             }
         }
+        let mut fks = vec![]; fk_cases(&mut rng, 500, &mut fks);
+        for c in &fks { tried += 1; let o = run_fk(c); if !matches!(o, XOut::Ok(..)) { let cl = fk_class(c, &o); note(format!("fk {}", cl), format!("{} class={}", fk_replay(c, &describe(&c.d)), cl), &mut fails); } }
+        let mut jbs = vec![]; jb_cases(&mut rng, 500, &mut jbs);
+        for c in &jbs { tried += 1; let o = run_jb(c); if !matches!(o, XOut::Ok(..)) { let cl = jb_class(&o); note(format!("jb {}", cl), format!("{} class={}", jb_replay(&describe(&c.d)), cl), &mut fails); } }
     }
+    // corrupted database directories: a tenth of the budget, at most 3000
+    let n_db = (budget / 10).clamp(50, 3000) as usize;
+    let (base, files) = template_files();
+    let mut dbs: Vec<DbCase> = (0..n_db).map(|_| gen_db_case(&mut rng, &files)).collect();
+    resolve_bitflips(&mut dbs, &base);
+    let outs = run_db_cases(&dbs, 6, &base);
+    for (c, o) in dbs.iter().zip(outs.iter()) {
+        tried += 1;
+        if !matches!(o, XOut::Ok(..)) { let cl = db_class(&db_feat(c), o); note(format!("db {} {}", cl, site_key(o)), format!("{} class={}", db_replay(c), cl), &mut fails); }
+    }
+    let _ = std::fs::remove_dir_all(&base);
     let mut out = format!("tried={}\n", tried);
     for f in &fails { out.push_str("FAIL "); out.push_str(f); out.push('\n'); }
     std::fs::write(&a.out, out).expect("write search output");
